@@ -35,13 +35,19 @@ class Variant(object):
         self.classes = []
 
 
-def _parts(s):
-    """'\\x01F\\x01' -> ('e', 'F', 'e')"""
+# representative escape characters: the backslash (special for regex patterns AND replacement templates), another regex
+# metacharacter, and a plain punctuation character
+ESC_CLASSES = (('backslash', '\\'), ('regex metacharacter', '?'), ('plain punctuation', '@'))
+
+
+def _parts(s, ESC=ESC):
+    """'<esc>F<esc>' -> ('e', 'F', 'e')"""
     return tuple(E if ch == ESC else ch for ch in s)
 
 
-def extract(ix, te, ce, cls, chk):
+def extract(ix, te, ce, cls, chk, ESC=ESC):
     v = Variant(cls.qualname)
+    parts = lambda s_: _parts(s_, ESC)
     ev = cls.find_method('_escape_value')
     gt = cls.find_method('_get_translations')
     gr = cls.find_method('_get_escape_char_regex')
@@ -64,7 +70,7 @@ def extract(ix, te, ce, cls, chk):
                 raise AnalysisError('%s: translation for %s is not constant (%s)' % (cls.qualname, role, e))
             if role in table:
                 chk.info('C06: %s lists role %s twice in one translation table' % (cls.qualname, role))
-            table[role] = _parts(word)
+            table[role] = parts(word)
         ctxs = []
         p = r
         while p is not None and p is not gt.node:
@@ -152,18 +158,28 @@ def extract(ix, te, ce, cls, chk):
             rep0 = sub.value.args[1]
             rep0 = rep0.body if isinstance(rep0, ast.Lambda) else rep0
             try:
-                v.repl = _parts(ce.eval(rep0, ev.module, None, env={'escape_char': ESC}))
+                v.repl = parts(ce.eval(rep0, ev.module, None, env={'escape_char': ESC}))
             except NotConstant:
                 pass
         return v
     rep = sub.value.args[1]
-    if isinstance(rep, ast.Lambda):
+    is_callable = isinstance(rep, ast.Lambda)
+    if is_callable:
         rep = rep.body
     try:
         word = ce.eval(rep, ev.module, None, env={'escape_char': ESC})
     except NotConstant as e:
         raise AnalysisError('%s: replacement of the re.sub is not constant (%s)' % (cls.qualname, e))
-    v.repl = _parts(word)
+    v.repl_error = None
+    if not is_callable:
+        # a string replacement is a *template*: re expands backslash escapes in it (stdlib semantics applied to the constant)
+        import re as _re
+        try:
+            word = _re.sub('x', word, 'x')
+        except Exception as e_:
+            v.repl_error = 'replacement template %r is rejected by re.sub: %s' % (word, e_)
+            word = ESC
+    v.repl = parts(word)
     ln, sn = g.node_of_ast.get(id(loop)), g.node_for(sub)
     v.order_ok = sn in g.reach(ln) and ln not in g.reach(sn)
     v.returns_value = all(norm(r.value) == 'value' for r in own_nodes(ev.node) if isinstance(r, ast.Return))
@@ -304,99 +320,115 @@ def run(chk):
         ci = variants[('cls', k)]
         owner = ix.functions[k[1]].cls
         vname = owner.qualname
-        v = extract(ix, te, ce, ci, chk)
-        where = v.funcs[0].loc
-        chk.ok('C06-X', '%s extracted (%d binding(s))' % (vname, len(variants[k])),
-               'tables %s; look-behind %s; look-ahead %s; replacement %s' % (
-                   [(l, sorted(t)) for l, t in v.tables], [''.join(sorted(s)) for s in v.behind],
-                   [''.join(sorted(s)) for s in v.ahead], ''.join(v.repl)), where, key='C06-X|%s' % vname)
-        chk.ob('C06-X', '%s: all replaces happen before the re.sub and the result is returned' % vname,
-               v.order_ok and v.returns_value and not v.extra,
-               'order ok %s, returns value %s, other rewrites %s' % (v.order_ok, v.returns_value, v.extra), where,
-               key='C06-X|%s|order' % vname)
-        for label, table in v.tables:
-            tname = '%s[%s]' % (vname, 'with ' + '+'.join(sorted(table)) if label == 'main' else label)
-            roles_needed = set(sep_roles)
-            if 'TRUNCATION' in table or (label == 'main' and any(
-                    b.split('.')[0] >= 'v2_7' for b in variants[k])):
-                roles_needed.add('TRUNCATION')       # from v2.7 a truncation character may be part of the delimiter set
-            if label.startswith('except'):
-                roles_needed.discard('TRUNCATION')       # fall-back table for a delimiter set without truncation character
-            if 'ESCAPE' in table:
-                chk.fail('C06-X', '%s translates the ESCAPE role with str.replace' % tname,
-                         'order-dependent rewriting of the escape character is outside the model', where,
-                         key='C06-X|%s|escape-role' % tname)
-                continue
-            m = model(v, table, roles_needed)
-            chk.sample({'variant': tname, 'alphabet': m['sigma'], 'letter classes (look-behind, look-ahead, valid)':
-                        {k2: str(v2) for k2, v2 in m['classes'].items()}})
-            # ---- P4
-            need = m['emitted'] | {'H', 'N'} | ({m['rletter']} if m['rletter'] else set())
-            for side, have in (('look-behind', m['lb']), ('look-ahead', m['la'])):
-                missing = sorted(need - have)
-                chk.ob('C06-P4', '%s: %s class contains every emitted letter, E, H, N' % (tname, side), not missing,
-                       'letters %s are emitted / reserved but missing from the %s class: such sequences are not recognised as '
-                       'already escaped' % (missing, side), where, key='C06-P4|%s|%s|%s' % (tname, side, ','.join(missing)))
-            # ---- automata
-            A = am.NFA.universal(m['sigma'])
-            H = am.flatten(am.image_hom(A, m['hom']))
-            OUT = am.image_local(H, m['decide'], m['nb'], m['na'])
-            ns, nt = am.count_states(OUT)
-            chk.count('automaton states (%s)' % tname, ns)
-            chk.count('automaton transitions (%s)' % tname, nt)
-            # P1
-            roles = set(m['roles'])
-            w = am.find_witness(OUT, False, lambda d, x: d or x in roles, lambda d: d)
-            late = sorted(b for b in variants[k] if b.split('.')[0] >= 'v2_7')
-            chk.ob('C06-P1', '%s: outputs contain no delimiter' % tname, w is None,
-                   '' if w is None else 'input %r (default delimiters: %r) is emitted as %r: an unescaped %s survives%s' % (
-                       ' '.join(w[0]), render(w[0]), render(w[1]), [x for x in w[1] if x in roles][0],
-                       ' (this variant is what %s use)' % ', '.join(late[:6]) if late and 'TRUNCATION' in w[1] else ''), where,
-                   key='C06-P1|%s|%s' % (tname, ' '.join(w[0]) if w else ''))
-            # P2 (all strings)
-            step = wf_step(m['valid'])
-            w2 = am.find_witness(OUT, 0, step, lambda d: d != 0)
-            # P3 (all strings): apply the transduction to OUT again, mark rewrites
-            def decide_mark(hist, sym, look, d=m['decide']):
-                o = d(hist, sym, look)
-                return o if o == (sym,) else ('!',)
-            H2 = am.flatten(am.image_hom(OUT, m['hom']))
-            OUT2 = am.image_local(H2, decide_mark, m['nb'], m['na'])
-            w3 = am.find_witness(OUT2, False, lambda d, x: d or x == '!' or x in roles, lambda d: d)
-            chk.ob('C06-P3', '%s: escaping an output again is the identity (all strings)' % tname, w3 is None,
-                   '' if w3 is None else 'input %r (%r) is emitted as a text that a second escaping changes' % (
-                       ' '.join(w3[0]), render(w3[0])), where, key='C06-P3|%s|%s' % (tname, ' '.join(w3[0]) if w3 else ''))
-            # bounded enumeration: minimal failing inputs for P2
-            N = 5 if chk.tier == 'quick' else 6
-            failing = []
-            total = 0
-            for ln in range(1, N + 1):
-                for word in itertools.product(m['sigma'], repeat=ln):
-                    total += 1
+        per_class = []
+        for cname_, ch_ in ESC_CLASSES:
+            per_class.append((cname_, extract(ix, te, ce, ci, chk, ESC=ch_)))
+        sig = lambda vv: (repr(vv.tables), repr(vv.behind), repr(vv.ahead), vv.repl, vv.repl_error if hasattr(vv, 'repl_error') else None,
+                          vv.order_ok, tuple(vv.extra))
+        groups = {}
+        for cname_, vv in per_class:
+            groups.setdefault(sig(vv), []).append(cname_)
+        runs = []
+        for cname_, vv in per_class:
+            if groups[sig(vv)][0] == cname_:
+                runs.append(('' if len(groups) == 1 else ' {ESCAPE is a %s}' % '/'.join(groups[sig(vv)]), vv))
+        chk.count('escape-character classes analysed', len(ESC_CLASSES))
+        for suffix_, v in runs:
+            vname = owner.qualname + suffix_
+            where = v.funcs[0].loc
+            if getattr(v, 'repl_error', None):
+                chk.fail('C06-X', '%s: replacement of the re.sub' % vname, v.repl_error, where, key='C06-X|%s|repl-template' % vname)
+            chk.ok('C06-X', '%s extracted (%d binding(s))' % (vname, len(variants[k])),
+                   'tables %s; look-behind %s; look-ahead %s; replacement %s' % (
+                       [(l, sorted(t)) for l, t in v.tables], [''.join(sorted(s)) for s in v.behind],
+                       [''.join(sorted(s)) for s in v.ahead], ''.join(v.repl)), where, key='C06-X|%s' % vname)
+            chk.ob('C06-X', '%s: all replaces happen before the re.sub and the result is returned' % vname,
+                   v.order_ok and v.returns_value and not v.extra,
+                   'order ok %s, returns value %s, other rewrites %s' % (v.order_ok, v.returns_value, v.extra), where,
+                   key='C06-X|%s|order' % vname)
+            for label, table in v.tables:
+                tname = '%s[%s]' % (vname, 'with ' + '+'.join(sorted(table)) if label == 'main' else label)
+                roles_needed = set(sep_roles)
+                if 'TRUNCATION' in table or (label == 'main' and any(
+                        b.split('.')[0] >= 'v2_7' for b in variants[k])):
+                    roles_needed.add('TRUNCATION')       # from v2.7 a truncation character may be part of the delimiter set
+                if label.startswith('except'):
+                    roles_needed.discard('TRUNCATION')       # fall-back table for a delimiter set without truncation character
+                if 'ESCAPE' in table:
+                    chk.fail('C06-X', '%s translates the ESCAPE role with str.replace' % tname,
+                             'order-dependent rewriting of the escape character is outside the model', where,
+                             key='C06-X|%s|escape-role' % tname)
+                    continue
+                m = model(v, table, roles_needed)
+                chk.sample({'variant': tname, 'alphabet': m['sigma'], 'letter classes (look-behind, look-ahead, valid)':
+                            {k2: str(v2) for k2, v2 in m['classes'].items()}})
+                # ---- P4
+                need = m['emitted'] | {'H', 'N'} | ({m['rletter']} if m['rletter'] else set())
+                for side, have in (('look-behind', m['lb']), ('look-ahead', m['la'])):
+                    missing = sorted(need - have)
+                    chk.ob('C06-P4', '%s: %s class contains every emitted letter, E, H, N' % (tname, side), not missing,
+                           'letters %s are emitted / reserved but missing from the %s class: such sequences are not recognised as '
+                           'already escaped' % (missing, side), where, key='C06-P4|%s|%s|%s' % (tname, side, ','.join(missing)))
+                # ---- automata
+                A = am.NFA.universal(m['sigma'])
+                H = am.flatten(am.image_hom(A, m['hom']))
+                OUT = am.image_local(H, m['decide'], m['nb'], m['na'])
+                ns, nt = am.count_states(OUT)
+                chk.count('automaton states (%s)' % tname, ns)
+                chk.count('automaton transitions (%s)' % tname, nt)
+                # P1
+                roles = set(m['roles'])
+                w = am.find_witness(OUT, False, lambda d, x: d or x in roles, lambda d: d)
+                late = sorted(b for b in variants[k] if b.split('.')[0] >= 'v2_7')
+                chk.ob('C06-P1', '%s: outputs contain no delimiter' % tname, w is None,
+                       '' if w is None else 'input %r (default delimiters: %r) is emitted as %r: an unescaped %s survives%s' % (
+                           ' '.join(w[0]), render(w[0]), render(w[1]), [x for x in w[1] if x in roles][0],
+                           ' (this variant is what %s use)' % ', '.join(late[:6]) if late and 'TRUNCATION' in w[1] else ''), where,
+                       key='C06-P1|%s|%s' % (tname, ' '.join(w[0]) if w else ''))
+                # P2 (all strings)
+                step = wf_step(m['valid'])
+                w2 = am.find_witness(OUT, 0, step, lambda d: d != 0)
+                # P3 (all strings): apply the transduction to OUT again, mark rewrites
+                def decide_mark(hist, sym, look, d=m['decide']):
+                    o = d(hist, sym, look)
+                    return o if o == (sym,) else ('!',)
+                H2 = am.flatten(am.image_hom(OUT, m['hom']))
+                OUT2 = am.image_local(H2, decide_mark, m['nb'], m['na'])
+                w3 = am.find_witness(OUT2, False, lambda d, x: d or x == '!' or x in roles, lambda d: d)
+                chk.ob('C06-P3', '%s: escaping an output again is the identity (all strings)' % tname, w3 is None,
+                       '' if w3 is None else 'input %r (%r) is emitted as a text that a second escaping changes' % (
+                           ' '.join(w3[0]), render(w3[0])), where, key='C06-P3|%s|%s' % (tname, ' '.join(w3[0]) if w3 else ''))
+                # bounded enumeration: minimal failing inputs for P2
+                N = 5 if chk.tier == 'quick' else 6
+                failing = []
+                total = 0
+                for ln in range(1, N + 1):
+                    for word in itertools.product(m['sigma'], repeat=ln):
+                        total += 1
+                        out = apply_direct(m, word)
+                        d = 0
+                        for x in out:
+                            d = step(d, x)
+                        if d != 0:
+                            # minimal: no proper factor fails
+                            if not any(_is_factor(f, word) for f in failing):
+                                failing.append(word)
+                        # cross-check of the automaton against the direct definition on this word
+                chk.count('inputs enumerated for P2 (%s, length <= %d)' % (tname, N), total)
+                if w2 is None and failing:
+                    raise AnalysisError('automaton and direct transduction disagree on P2 for %s' % tname)
+                if w2 is not None and not failing:
+                    failing = [w2[0]]
+                if not failing:
+                    chk.ok('C06-P2', '%s: every escape character of every output belongs to an escape sequence' % tname, '',
+                           where, key='C06-P2|%s' % tname)
+                for word in failing:
                     out = apply_direct(m, word)
-                    d = 0
-                    for x in out:
-                        d = step(d, x)
-                    if d != 0:
-                        # minimal: no proper factor fails
-                        if not any(_is_factor(f, word) for f in failing):
-                            failing.append(word)
-                    # cross-check of the automaton against the direct definition on this word
-            chk.count('inputs enumerated for P2 (%s, length <= %d)' % (tname, N), total)
-            if w2 is None and failing:
-                raise AnalysisError('automaton and direct transduction disagree on P2 for %s' % tname)
-            if w2 is not None and not failing:
-                failing = [w2[0]]
-            if not failing:
-                chk.ok('C06-P2', '%s: every escape character of every output belongs to an escape sequence' % tname, '',
-                       where, key='C06-P2|%s' % tname)
-            for word in failing:
-                out = apply_direct(m, word)
-                chk.fail('C06-P2', '%s: input `%s`' % (tname, ' '.join(word)),
-                         'minimal failing input %r (default delimiters: %r) is emitted as %r: an escape character is left '
-                         'outside any e<letter>e sequence (the guards suppress escaping next to a produced sequence)' % (
-                             ' '.join(word), render(word), render(out)), where,
-                         key='C06-P2|%s|%s' % (tname, ' '.join(word)))
+                    chk.fail('C06-P2', '%s: input `%s`' % (tname, ' '.join(word)),
+                             'minimal failing input %r (default delimiters: %r) is emitted as %r: an escape character is left '
+                             'outside any e<letter>e sequence (the guards suppress escaping next to a produced sequence)' % (
+                                 ' '.join(word), render(word), render(out)), where,
+                             key='C06-P2|%s|%s' % (tname, ' '.join(word)))
 
     # ---- D delegation
     sc = ix.func('core.SubComponent.to_er7')
